@@ -2,7 +2,8 @@
 # setup: offline self-test of the framework pieces that every check depends on.
 #  1. tools present; 2. spec transcription validated on the 10 published vectors;
 #  3. the instrumented tree, with every contract point defined empty, compiles natively and passes
-#     the repository's 30 tests ("insertions have no executable effect").
+#     the repository's 30 tests ("insertions have no executable effect");
+#  4. the Arduino classes extract to valid C (C19).
 set -e
 HERE="$(cd "$(dirname "$0")/.." && pwd)"
 for t in cbmc goto-cc goto-instrument gcc python3; do command -v $t >/dev/null || { echo "missing tool $t"; exit 1; }; done
@@ -19,3 +20,14 @@ cp "$W"/tree/src/*.c "$W"/tree/src/*.h "$W/native/src/"
 n=$(cat "$W/oks" 2>/dev/null || echo 0)
 echo "instrumented tree (all contract points empty): $n/30 repository tests ok"
 [ "$n" = 30 ]
+#  4. C19: the 12 translation units extracted from the Arduino sources, with every contract point empty, are valid C
+#     (extraction break here = the C19 jobs will be UNDECIDED; reported, does not fail the setup of the other properties)
+if [ -f "$W/tree/arduino/EXTRACTION_BREAK" ]; then
+  echo "Arduino extraction: BREAK for $(tr '\n' ' ' < "$W/tree/arduino/EXTRACTION_BREAK")"
+else
+  k=0
+  for f in "$W"/tree/arduino/*.c; do
+    gcc -std=gnu99 -fsyntax-only -Wno-unused-function -include "$W/tree/verif_defaults.h" "$f" 2>>"$W/ard.log" && k=$((k+1))
+  done
+  echo "Arduino extraction: $k/12 translation units compile as C"
+fi
